@@ -1,5 +1,6 @@
 mod child;
 mod extdata;
+mod fuzz;
 mod pb;
 mod proto;
 
@@ -10,6 +11,8 @@ fn main() {
         "proto-batch" => proto::main_batch_child(),
         "extdata" => extdata::main_extdata(),
         "extdata-batch" => extdata::main_batch_child(),
+        "fuzz" => fuzz::main_fuzz(),
+        "fuzz-batch" => fuzz::main_batch_child(),
         _ => {
             eprintln!("usage: vh-load <proto|extdata|fuzz> [options]");
             std::process::exit(2);
